@@ -174,7 +174,8 @@ extern _Bool g_in_processing;
   __CPROVER_ensures(QQ->queueList.len < (1L << 61) && QQ->freeList.len < (1L << 61) && QQ->queueListConditionVariable.notified < (1 << 29))   /* sizes stay far below the machine limits (assumption) */ \
   __CPROVER_ensures(DD_K(0) ==> (g_disp[0] == 1 && g_dseq[0] == g_seq)) \
   __CPROVER_ensures(DD_K(1) ==> (g_disp[1] == 1 && g_dseq[1] == g_seq)) \
-  __CPROVER_ensures(DD_INFLIGHT_SAME(0) && DD_INFLIGHT_SAME(1))
+  __CPROVER_ensures(DD_INFLIGHT_SAME(0) && DD_INFLIGHT_SAME(1)) \
+  __CPROVER_ensures(g_dead[0] == __CPROVER_old(g_dead[0]) && g_dead[1] == __CPROVER_old(g_dead[1]))     /* no operation destroys a slot while the queue lives */
 /* a witness slot that was in neither shared list when the listener ran (in flight in the caller's local list, or not
  * born yet) is exactly as before, apart from the dispatch count / sequence number of the event being dispatched */
 #define DD_INFLIGHT_SAME(k) \
@@ -242,3 +243,165 @@ extern _Bool g_in_processing;
   __CPROVER_ensures(__CPROVER_return_value == (__CPROVER_old(self->queueList.len) > 0)) \
   __CPROVER_ensures(PROC_POST(0) && PROC_POST(1)) \
   __CPROVER_ensures((g_b0 ==> g_dseq[0] < g_dseq[1]) && (g_b1 ==> g_dseq[1] < g_dseq[0]))
+
+/* std::tuple<VArg> assignment (opaque library type): element-wise */
+#define CONTRACT_ArgsTuple_assign_copy \
+  __CPROVER_assigns(self->a0.id) \
+  __CPROVER_ensures(self->a0.id == a0->a0.id)
+#define CONTRACT_ArgsTuple_assign_move \
+  __CPROVER_assigns(self->a0.id, a0->a0.id) \
+  __CPROVER_ensures(self->a0.id == __CPROVER_old(a0->a0.id))
+
+/* ================================================================== emptyQueue (eventqueue.h:186) */
+#define CONTRACT_Q_emptyQueue \
+  __CPROVER_requires(__CPROVER_is_fresh(self, sizeof(Q))) \
+  __CPROVER_assigns() \
+  __CPROVER_ensures(__CPROVER_return_value == (self->queueList.len == 0 && self->queueEmptyCounter == 0))
+
+/* ================================================================== processOne (eventqueue.h:240): exactly the front event */
+#define P1_FRONT(k) (__CPROVER_old(self->queueList.w[k]) == 0 ==> (DONE_M(k) && self->freeList.w[k] >= 0))
+#define CONTRACT_Q_processOne \
+  __CPROVER_requires(__CPROVER_is_fresh(self, sizeof(Q))) \
+  __CPROVER_requires(NOLOCKS(self) && q_ok(self) && Q_SMALL(self) && g_in_processing) \
+  __CPROVER_assigns(self->queueList, self->freeList, self->queueListMutex.depth, self->freeListMutex.depth, self->queueEmptyCounter, self->queueListConditionVariable.notified, GHOSTS) \
+  __CPROVER_ensures(NOLOCKS(self) && q_ok(self) && self->queueEmptyCounter == __CPROVER_old(self->queueEmptyCounter)) \
+  __CPROVER_ensures(__CPROVER_return_value == (__CPROVER_old(self->queueList.len) > 0)) \
+  __CPROVER_ensures(P1_FRONT(0) && P1_FRONT(1))
+
+/* ================================================================== takeEvent (eventqueue.h:443): hands out exactly the front event, intact */
+#define TK_FRONT(k) (__CPROVER_old(self->queueList.w[k]) == 0 ==> (queuedEvent->arguments.a0.id == g_argid[k] && queuedEvent->event == (g_argid[k] ^ 0x2a) && \
+                                                                  g_disp[k] == 0 && !g_cons[k] && g_S[k].dtor == NULL && self->freeList.w[k] >= 0))
+#define TK_REST(k)  (__CPROVER_old(self->queueList.w[k]) > 0 ==> self->queueList.w[k] == __CPROVER_old(self->queueList.w[k]) - 1)
+#define CONTRACT_Q_takeEvent \
+  __CPROVER_requires(__CPROVER_is_fresh(self, sizeof(Q)) && __CPROVER_is_fresh(queuedEvent, sizeof(QueuedEvent))) \
+  __CPROVER_requires(NOLOCKS(self) && q_ok(self) && Q_SMALL(self)) \
+  __CPROVER_assigns(self->queueList, self->freeList, self->queueListMutex.depth, self->freeListMutex.depth, *queuedEvent, GHOSTS) \
+  __CPROVER_ensures(NOLOCKS(self) && q_ok(self)) \
+  __CPROVER_ensures(__CPROVER_return_value == (__CPROVER_old(self->queueList.len) > 0)) \
+  __CPROVER_ensures(__CPROVER_return_value ==> self->queueList.len == __CPROVER_old(self->queueList.len) - 1) \
+  __CPROVER_ensures(TK_FRONT(0) && TK_FRONT(1) && TK_REST(0) && TK_REST(1))
+
+/* ================================================================== peekEvent (eventqueue.h:429): copy of the front event, queue unchanged */
+#define PK_FRONT(k) (self->queueList.w[k] == 0 ==> (queuedEvent->arguments.a0.id == g_argid[k] && queuedEvent->event == (g_argid[k] ^ 0x2a)))
+#define CONTRACT_Q_peekEvent \
+  __CPROVER_requires(__CPROVER_is_fresh(self, sizeof(Q)) && __CPROVER_is_fresh(queuedEvent, sizeof(QueuedEvent))) \
+  __CPROVER_requires(NOLOCKS(self) && q_ok(self)) \
+  __CPROVER_assigns(self->queueListMutex.depth, *queuedEvent, g_anon) \
+  __CPROVER_ensures(NOLOCKS(self) && q_ok(self)) \
+  __CPROVER_ensures(__CPROVER_return_value == (self->queueList.len > 0)) \
+  __CPROVER_ensures(__CPROVER_return_value ==> (PK_FRONT(0) && PK_FRONT(1)))
+
+/* ================================================================== clearEvents (eventqueue.h:191): everything queued is discarded,
+ * payloads destroyed before return, slots recycled */
+#define CL_W(T, i, k) ((T).w[k] >= 0 ==> (INFLIGHT(self, k) && ((T).w[k] < (i) ? (g_born[k] && !g_dead[k] && !g_cons[k] && g_S[k].dtor == NULL && g_disp[k] == 0) : SLOT_QUEUED_M(k))))
+#define LOOP_CONTRACT_Q_clearEvents__loop0 \
+  __CPROVER_assigns(__begin_L0.i, GHOSTS) \
+  __CPROVER_loop_invariant(0 <= __begin_L0.i && __begin_L0.i <= tempList.len) \
+  __CPROVER_loop_invariant(Q_OK_M(self) && CL_W(tempList, __begin_L0.i, 0) && CL_W(tempList, __begin_L0.i, 1)) \
+  __CPROVER_decreases(tempList.len - __begin_L0.i)
+#define CLR_POST(k) (__CPROVER_old(self->queueList.w[k]) >= 0 ==> (!g_cons[k] && g_S[k].dtor == NULL && g_disp[k] == 0 && self->freeList.w[k] >= 0))
+#define CONTRACT_Q_clearEvents \
+  __CPROVER_requires(__CPROVER_is_fresh(self, sizeof(Q))) \
+  __CPROVER_requires(NOLOCKS(self) && q_ok(self) && Q_SMALL(self)) \
+  __CPROVER_assigns(self->queueList, self->freeList, self->queueListMutex.depth, self->freeListMutex.depth, GHOSTS) \
+  __CPROVER_ensures(NOLOCKS(self) && q_ok(self) && self->queueList.len == 0) \
+  __CPROVER_ensures(CLR_POST(0) && CLR_POST(1))
+
+/* ================================================================== processIf / processUntil (eventqueue.h:276 / 340)
+ * user predicate boundary = doInvokeFuncWithQueuedEvent (rely, like the listener boundary): the predicate may use the
+ * queue re-entrantly.  ghost: g_pred[k] = how often the event in witness slot k has been shown to a predicate in this
+ * call, g_verdict[k] = the (arbitrary, fixed) answer of the predicate for it. */
+extern int g_pred[2]; extern _Bool g_verdict[2];
+#define PI_K(k) (item == &g_S[k].buffer)
+#define PRED_CONTRACT \
+  __CPROVER_requires(NOLOCKS(self) && q_ok(self) && Q_MID(self)) \
+  __CPROVER_requires(PI_K(0) ==> (SLOT_QUEUED_M(0) && g_pred[0] == 0)) \
+  __CPROVER_requires(PI_K(1) ==> (SLOT_QUEUED_M(1) && g_pred[1] == 0))                 /* each event is examined at most once, intact */ \
+  __CPROVER_requires(g_in_processing ==> self->queueEmptyCounter >= 1) \
+  __CPROVER_assigns(self->queueList, self->freeList, self->queueListConditionVariable.notified, GHOSTS, g_pred[0], g_pred[1]) \
+  __CPROVER_ensures(NOLOCKS(self) && q_ok(self) && Q_MID(self) && g_seq >= __CPROVER_old(g_seq)) \
+  __CPROVER_ensures(DD_INFLIGHT_SAME2(0) && DD_INFLIGHT_SAME2(1)) \
+  __CPROVER_ensures(g_dead[0] == __CPROVER_old(g_dead[0]) && g_dead[1] == __CPROVER_old(g_dead[1])) \
+  __CPROVER_ensures(PI_K(0) ? (g_pred[0] == 1 && __CPROVER_return_value == g_verdict[0]) : g_pred[0] == __CPROVER_old(g_pred[0])) \
+  __CPROVER_ensures(PI_K(1) ? (g_pred[1] == 1 && __CPROVER_return_value == g_verdict[1]) : g_pred[1] == __CPROVER_old(g_pred[1]))
+#define DD_INFLIGHT_SAME2(k) \
+  ((__CPROVER_old(self->queueList.w[k]) < 0 && __CPROVER_old(self->freeList.w[k]) < 0 && __CPROVER_old(g_born[k])) ==> \
+     (self->queueList.w[k] < 0 && self->freeList.w[k] < 0 && g_born[k] && g_dead[k] == __CPROVER_old(g_dead[k]) && g_cons[k] == __CPROVER_old(g_cons[k]) && \
+      g_S[k].dtor == __CPROVER_old(g_S[k].dtor) && g_S[k].buffer.arguments.a0.id == __CPROVER_old(g_S[k].buffer.arguments.a0.id) && \
+      g_S[k].buffer.event == __CPROVER_old(g_S[k].buffer.event) && g_argid[k] == __CPROVER_old(g_argid[k]) && g_taken[k] == __CPROVER_old(g_taken[k]) && \
+      g_disp[k] == __CPROVER_old(g_disp[k]) && g_dseq[k] == __CPROVER_old(g_dseq[k])))
+#define CONTRACT_Q_doInvokeFuncWithQueuedEvent__UserPred_QueuedEvent PRED_CONTRACT
+#define CONTRACT_Q_doInvokeFuncWithQueuedEvent__UserPred0_QueuedEvent PRED_CONTRACT
+
+/* witness k during the processIf loop: T = tempList (not yet examined / declined), I = idleList (accepted, dispatched, cleared) */
+#define PIF_W(k) ( \
+   (__CPROVER_loop_entry(tempList.w[k]) < 0 ? (tempList.w[k] < 0 && idleList.w[k] < 0) : \
+     (INFLIGHT(self, k) && ((tempList.w[k] >= 0) != (idleList.w[k] >= 0)) && tempList.w[k] <= __CPROVER_loop_entry(tempList.w[k]) && \
+      (tempList.w[k] >= it.i ==> (g_pred[k] == 0 && SLOT_QUEUED_M(k))) && \
+      ((tempList.w[k] >= 0 && tempList.w[k] < it.i) ==> (g_pred[k] == 1 && !g_verdict[k] && SLOT_QUEUED_M(k))) && \
+      (idleList.w[k] >= 0 ==> (g_pred[k] == 1 && g_verdict[k] && DONE_M(k))))))
+#define PIF_ORDER ((__CPROVER_loop_entry(tempList.w[0]) >= 0 && __CPROVER_loop_entry(tempList.w[1]) >= 0 && tempList.w[0] >= 0 && tempList.w[1] >= 0) ==> \
+                   ((__CPROVER_loop_entry(tempList.w[0]) < __CPROVER_loop_entry(tempList.w[1])) == (tempList.w[0] < tempList.w[1])))
+#define PIF_LOOP \
+  __CPROVER_assigns(it, tempList, idleList, self->queueList, self->freeList, self->queueListConditionVariable.notified, GHOSTS, g_pred[0], g_pred[1]) \
+  __CPROVER_loop_invariant(it.l == &tempList && 0 <= it.i && it.i <= tempList.len && WL_OK_M(tempList) && WL_OK_M(idleList)) \
+  __CPROVER_loop_invariant(tempList.len + idleList.len == __CPROVER_loop_entry(tempList.len)) \
+  __CPROVER_loop_invariant(NOLOCKS(self) && Q_OK_M(self) && Q_MID(self)) \
+  __CPROVER_loop_invariant(PIF_W(0) && PIF_W(1) && PIF_ORDER) \
+  __CPROVER_loop_invariant(g_dead[0] == __CPROVER_loop_entry(g_dead[0]) && g_dead[1] == __CPROVER_loop_entry(g_dead[1])) \
+  __CPROVER_decreases(tempList.len - it.i)
+#define LOOP_CONTRACT_Q_processIf__UserPred__loop0 PIF_LOOP
+#define LOOP_CONTRACT_Q_processIf__UserPred0__loop0 PIF_LOOP
+/* statement: each queued event is shown to the predicate exactly once; accepted => dispatched exactly once (as enqueued)
+ * and recycled; declined => still queued, not behind its old place (so ahead of everything enqueued meanwhile), original
+ * relative order kept; no slot is destroyed (nothing enqueued during the call is lost) */
+#define PIF_POST(k) (__CPROVER_old(self->queueList.w[k]) >= 0 ==> (g_pred[k] == 1 && \
+     (g_verdict[k] ? (DONE_M(k) && self->freeList.w[k] >= 0 && __CPROVER_return_value) \
+                   : (SLOT_QUEUED_M(k) && self->queueList.w[k] >= 0 && self->queueList.w[k] <= __CPROVER_old(self->queueList.w[k])))))
+#define PIF_CONTRACT \
+  __CPROVER_requires(__CPROVER_is_fresh(self, sizeof(Q)) && __CPROVER_is_fresh(predictor, sizeof(*predictor))) \
+  __CPROVER_requires(NOLOCKS(self) && q_ok(self) && Q_SMALL(self) && g_in_processing && g_pred[0] == 0 && g_pred[1] == 0) \
+  __CPROVER_requires(g_b0 == (self->queueList.w[0] >= 0 && self->queueList.w[1] >= 0 && self->queueList.w[0] < self->queueList.w[1])) \
+  __CPROVER_requires(g_b1 == (self->queueList.w[0] >= 0 && self->queueList.w[1] >= 0 && self->queueList.w[1] < self->queueList.w[0])) \
+  __CPROVER_assigns(self->queueList, self->freeList, self->queueListMutex.depth, self->freeListMutex.depth, self->queueEmptyCounter, self->queueListConditionVariable.notified, GHOSTS, g_pred[0], g_pred[1]) \
+  __CPROVER_ensures(NOLOCKS(self) && q_ok(self) && self->queueEmptyCounter == __CPROVER_old(self->queueEmptyCounter)) \
+  __CPROVER_ensures(g_dead[0] == __CPROVER_old(g_dead[0]) && g_dead[1] == __CPROVER_old(g_dead[1])) \
+  __CPROVER_ensures(PIF_POST(0) && PIF_POST(1)) \
+  __CPROVER_ensures((g_b0 && !g_verdict[0] && !g_verdict[1]) ==> self->queueList.w[0] < self->queueList.w[1]) \
+  __CPROVER_ensures((g_b1 && !g_verdict[0] && !g_verdict[1]) ==> self->queueList.w[1] < self->queueList.w[0])
+#define CONTRACT_Q_processIf__UserPred PIF_CONTRACT
+#define CONTRACT_Q_processIf__UserPred0 PIF_CONTRACT
+
+/* processUntil: events are dispatched until the predicate first says true; that event and everything behind it stay queued */
+#define PUN_W(k) ( \
+   (__CPROVER_loop_entry(tempList.w[k]) < 0 ? (tempList.w[k] < 0 && idleList.w[k] < 0) : \
+     (INFLIGHT(self, k) && ((tempList.w[k] >= 0) != (idleList.w[k] >= 0)) && tempList.w[k] <= __CPROVER_loop_entry(tempList.w[k]) && \
+      (tempList.w[k] >= 0 ==> (tempList.w[k] >= it.i && g_pred[k] == 0 && SLOT_QUEUED_M(k))) && \
+      (idleList.w[k] >= 0 ==> (g_pred[k] == 1 && !g_verdict[k] && DONE_M(k))))))
+/* everything already dispatched was queued ahead of everything still waiting */
+#define PUN_PREFIX(a, b) ((idleList.w[a] >= 0 && tempList.w[b] >= 0) ==> __CPROVER_loop_entry(tempList.w[a]) < __CPROVER_loop_entry(tempList.w[b]))
+#define PUN_LOOP \
+  __CPROVER_assigns(it, tempList, idleList, self->queueList, self->freeList, self->queueListConditionVariable.notified, GHOSTS, g_pred[0], g_pred[1]) \
+  __CPROVER_loop_invariant(it.l == &tempList && 0 <= it.i && it.i <= tempList.len && WL_OK_M(tempList) && WL_OK_M(idleList)) \
+  __CPROVER_loop_invariant(tempList.len + idleList.len == __CPROVER_loop_entry(tempList.len)) \
+  __CPROVER_loop_invariant(NOLOCKS(self) && Q_OK_M(self) && Q_MID(self)) \
+  __CPROVER_loop_invariant(PUN_W(0) && PUN_W(1) && PIF_ORDER && PUN_PREFIX(0, 1) && PUN_PREFIX(1, 0)) \
+  __CPROVER_loop_invariant(g_dead[0] == __CPROVER_loop_entry(g_dead[0]) && g_dead[1] == __CPROVER_loop_entry(g_dead[1])) \
+  __CPROVER_decreases(tempList.len - it.i)
+#define LOOP_CONTRACT_Q_processUntil__UserPred__loop0 PUN_LOOP
+#define PUN_POST(k) (__CPROVER_old(self->queueList.w[k]) >= 0 ==> \
+     ((g_pred[k] == 1 && !g_verdict[k]) ? (DONE_M(k) && self->freeList.w[k] >= 0 && __CPROVER_return_value) \
+                                        : (SLOT_QUEUED_M(k) && self->queueList.w[k] >= 0 && self->queueList.w[k] <= __CPROVER_old(self->queueList.w[k]))))
+#define STAYED(k) (self->queueList.w[k] >= 0 && !(g_pred[k] == 1 && !g_verdict[k]))
+#define CONTRACT_Q_processUntil__UserPred \
+  __CPROVER_requires(__CPROVER_is_fresh(self, sizeof(Q)) && __CPROVER_is_fresh(predictor, sizeof(*predictor))) \
+  __CPROVER_requires(NOLOCKS(self) && q_ok(self) && Q_SMALL(self) && g_in_processing && g_pred[0] == 0 && g_pred[1] == 0) \
+  __CPROVER_requires(g_b0 == (self->queueList.w[0] >= 0 && self->queueList.w[1] >= 0 && self->queueList.w[0] < self->queueList.w[1])) \
+  __CPROVER_requires(g_b1 == (self->queueList.w[0] >= 0 && self->queueList.w[1] >= 0 && self->queueList.w[1] < self->queueList.w[0])) \
+  __CPROVER_assigns(self->queueList, self->freeList, self->queueListMutex.depth, self->freeListMutex.depth, self->queueEmptyCounter, self->queueListConditionVariable.notified, GHOSTS, g_pred[0], g_pred[1]) \
+  __CPROVER_ensures(NOLOCKS(self) && q_ok(self) && self->queueEmptyCounter == __CPROVER_old(self->queueEmptyCounter)) \
+  __CPROVER_ensures(g_dead[0] == __CPROVER_old(g_dead[0]) && g_dead[1] == __CPROVER_old(g_dead[1])) \
+  __CPROVER_ensures(PUN_POST(0) && PUN_POST(1)) \
+  __CPROVER_ensures((g_b0 && STAYED(0) && STAYED(1)) ==> self->queueList.w[0] < self->queueList.w[1]) \
+  __CPROVER_ensures((g_b1 && STAYED(0) && STAYED(1)) ==> self->queueList.w[1] < self->queueList.w[0]) \
+  __CPROVER_ensures((g_b0 && g_disp[1] == 1 && __CPROVER_old(self->queueList.w[1]) >= 0 && DONE_M(1)) ==> DONE_M(0))   /* an event is not dispatched before one queued ahead of it */
